@@ -12,6 +12,18 @@
          (c) `specB` on Go's own civil fields = ContainsTime                          → PROPFAIL contains_iff_spec
     m    model Mutes = Intervener.Mutes → DIFF; spec on Go's fields                   → PROPFAIL mutes_spec
     st   model stage = stage Exec + marker → DIFF; gate rules on Go's fields          → PROPFAIL mute_gate/active_gate/route_gate
+    local  the process's local zone (`time.Local`) for the rest of the case: no model, no spec depends on it
+
+  The caller's zone.  `m` and `st` carry the location of the `time.Time` that is
+  handed to `Intervener.Mutes` / put into the context (`Local` = the process's
+  zone, as the dispatcher's timer instants have it).  The spec side never looks
+  at it: an interval is read on Go's civil fields *in its own location*, UTC
+  when it has none (`inSetSpec`).  A spec failure whose implementation verdict
+  equals the spec evaluated in the caller's (or the process's) zone instead is
+  classed `caller-zone-dependent` (`local-zone-dependent`); independently, the
+  same `m`/`st` operation repeated with another caller zone must give the same
+  answer (`mutes_caller_zone_irrelevant`, `*_stage_caller_zone_irrelevant`,
+  `pipeline_caller_zone_irrelevant`).
 -/
 import Driver.Util
 import AM.Model.TimeInterval
@@ -40,6 +52,9 @@ structure St where
   zunix  : Int := 0
   zs     : List ZInfo := []
   marker : AList String (List String) := []
+  localZone : String := "UTC"                      -- `time.Local` of the harness process
+  lastM  : Option (String × String × String × String) := none   -- unix, names, caller, observation
+  lastSt : Option (String × String × String) := none            -- op without caller, caller, observation
 
 /-! parsing of the op tokens -/
 
@@ -114,6 +129,25 @@ def inSetSpec (σ : St) (n : String) : Bool :=
   match lookup σ.cfg n with
   | none => false
   | some ivs => ivs.any fun iv => (specOn σ iv "UTC").getD false
+
+/-- `InSet` as a zone-dependent implementation would see it: an interval without a
+    location read in zone `z` (diagnostic, for the PROPFAIL class only). -/
+def inSetIn (σ : St) (z : String) (n : String) : Bool :=
+  match lookup σ.cfg n with
+  | none => false
+  | some ivs => ivs.any fun iv => (specOn σ iv z).getD false
+
+/-- the zone the caller token stands for -/
+def callerZone (σ : St) (tok : String) : String :=
+  let z := unhexStr tok
+  if z = "Local" then σ.localZone else z
+
+/-- Class of a gate/mutes failure: `verdictIn z` recomputes what the implementation
+    reported under the hypothesis that location-less intervals are read in zone `z`. -/
+def zoneClass (σ : St) (caller : String) (dflt : String) (agrees : (String → Bool) → Bool) : String :=
+  if caller ≠ "UTC" ∧ agrees (inSetIn σ caller) then "caller-zone-dependent"
+  else if σ.localZone ≠ "UTC" ∧ agrees (inSetIn σ σ.localZone) then "local-zone-dependent"
+  else dflt
 
 /-- F12 diagnostic: at this instant some zone's local calendar lacks the last day of the
     month, so the pinned `daysInMonth` (evaluated in the location) is off. -/
@@ -239,11 +273,14 @@ def step (σ : St) (op obs : List String) : St × List Msg :=
           else
             Msg.propfail "contains_iff_spec" s!"rejects-instant-inside{f9 σ}" s!"set={hexStr s.name} unix={u} spec=true impl=false" :: tags
     (σ, d ++ pf)
-  | ["m", unix, ns], o :: rest =>
+  | "m" :: unix :: ns :: callerTok, o :: rest =>
     let u := toInt! unix
     if u ≠ σ.zunix then (σ, [.diff "protocol" "m-after-z" unix]) else
+    let ctok := callerTok.headD (hexStr "UTC")
+    let caller := callerZone σ ctok
+    if (zoneOf σ caller).isNone then (σ, [.diff "protocol" "caller-zone-missing" caller]) else
     let nl := names ns
-    let modelObs := match mutes σ.cfg nl u (tzOf σ) with
+    let modelObs := match mutes σ.cfg nl u (tzOf σ) (tzOf σ caller) with
       | none => "err"
       | some (b, l) => s!"{if b then 1 else 0} {showNames l}"
     let implObs := " ".intercalate (o :: rest)
@@ -255,25 +292,58 @@ def step (σ : St) (op obs : List String) : St × List Msg :=
         let want := nl.filter (inSetSpec σ)
         let got := names (rest.headD "-")
         let flag : Bool := decide (o = "1")
-        (if flag ≠ !want.isEmpty then [Msg.propfail "mutes_spec" s!"muted-flag{f9 σ}" s!"unix={u} names={ns} spec={!want.isEmpty} impl={flag}"] else []) ++
-        (if !sameSet want got then [Msg.propfail "mutes_spec" s!"muting-names{f9 σ}" s!"unix={u} spec={showNames want} impl={showNames got}"] else []) ++
-        [.tag (if flag then "m:muted" else "m:not-muted")]
-    (σ, expectEq "mutes" modelObs implObs ++ pf)
-  | ["st", now, mode, mn, an, n, route], [nout, err, muted, mnames] =>
+        let cls (d : String) : String :=
+          zoneClass σ caller s!"{d}{f9 σ}" fun ins => (flag = !(nl.filter ins).isEmpty) && sameSet (nl.filter ins) got
+        (if flag ≠ !want.isEmpty then [Msg.propfail "mutes_spec" (cls "muted-flag") s!"unix={u} names={ns} caller={caller} spec={!want.isEmpty} impl={flag}"] else []) ++
+        (if !sameSet want got then [Msg.propfail "mutes_spec" (cls "muting-names") s!"unix={u} caller={caller} spec={showNames want} impl={showNames got}"] else []) ++
+        [.tag (if flag then "m:muted" else "m:not-muted")] ++
+        (if caller ≠ "UTC" then
+          [.tag "m:caller-non-utc"] ++
+          (if nl.any (fun n => inSetSpec σ n ≠ inSetIn σ caller n) then [.tag "m:caller-zone-would-differ"] else [])
+         else [])
+    -- the same question asked with another caller zone has the same answer
+    let twoZones : List Msg := match σ.lastM with
+      | some (u', ns', c', obs') =>
+        if u' = unix ∧ ns' = ns ∧ c' ≠ ctok then
+          (if obs' = implObs then [.tag "m:two-caller-zones"] else
+            [Msg.propfail "mutes_spec" "caller-zone-dependent" s!"unix={u} names={ns} caller={unhexStr c'}:{obs'} caller={unhexStr ctok}:{implObs}"])
+        else []
+      | none => []
+    ({ σ with lastM := some (unix, ns, ctok, implObs) }, expectEq "mutes" modelObs implObs ++ pf ++ twoZones)
+  | "st" :: now :: mode :: mn :: an :: n :: route :: callerTok, [nout, err, muted, mnames] =>
     let nowv : Option Int := if now = "nonow" then none else some (toInt! now)
     if nowv.isSome ∧ nowv ≠ some σ.zunix then (σ, [.diff "protocol" "st-after-z" now]) else
+    let ctok := callerTok.headD (hexStr "UTC")
+    let caller := callerZone σ ctok
+    if nowv.isSome ∧ (zoneOf σ caller).isNone then (σ, [.diff "protocol" "caller-zone-missing" caller]) else
+    let co := tzOf σ caller
     let muteN : Option (List String) := if mn = "nokey" then none else some (names mn)
     let actN : Option (List String) := if an = "nokey" then none else some (names an)
     let cnt := toNat! n
     let out := match mode with
-      | "a" => activeStage σ.cfg actN nowv (tzOf σ)
-      | "m" => muteStage σ.cfg muteN nowv (tzOf σ)
-      | _ => pipeline σ.cfg muteN actN nowv (tzOf σ)
+      | "a" => activeStage σ.cfg actN nowv (tzOf σ) co
+      | "m" => muteStage σ.cfg muteN nowv (tzOf σ) co
+      | _ => pipeline σ.cfg muteN actN nowv (tzOf σ) co
     let prev := (lookup σ.marker route).getD []
     let mk := out.marker.getD prev
     let modelObs := s!"{if out.passed then cnt else 0} {if out.err then 1 else 0} {if markerMuted mk then 1 else 0} {showNames mk}"
     let implObs := s!"{nout} {err} {muted} {mnames}"
-    let σ' := { σ with marker := put σ.marker route (names mnames) }
+    let opKey := " ".intercalate [now, mode, mn, an, n, route]
+    let σ' := { σ with marker := put σ.marker route (names mnames), lastSt := some (opKey, ctok, implObs) }
+    let gateThm := match mode with | "a" => "active_gate" | "m" => "mute_gate" | _ => "route_gate"
+    let twoZones : List Msg := match σ.lastSt with
+      | some (k', c', obs') =>
+        if k' = opKey ∧ c' ≠ ctok ∧ nowv.isSome then
+          (if obs' = implObs then [.tag "st:two-caller-zones"] else
+            [Msg.propfail gateThm "caller-zone-dependent" s!"unix={now} mode={mode} mute={mn} active={an} caller={unhexStr c'}:{obs'} caller={unhexStr ctok}:{implObs}"])
+        else []
+      | none => []
+    let callerTags : List Msg :=
+      if nowv.isSome ∧ caller ≠ "UTC" then
+        [.tag "st:caller-non-utc"] ++
+        (if ((muteN.getD []) ++ (actN.getD [])).any (fun n => inSetSpec σ n ≠ inSetIn σ caller n)
+         then [.tag "st:caller-zone-would-differ"] else [])
+      else []
     -- gate rules on the implementation's own output, inside the theorems' hypotheses
     let implPassed : Bool := decide (toNat! nout > 0)
     let implMuted : Bool := decide (muted = "1")
@@ -291,15 +361,19 @@ def step (σ : St) (op obs : List String) : St × List Msg :=
         let ns := muteN.getD []
         let by_ := ns.filter (inSetSpec σ)
         let want := by_.isEmpty
-        (if implPassed ≠ want then [Msg.propfail "mute_gate" (f9suffix σ <| if implPassed then "notified-while-muted" else "dropped-while-not-muted") s!"unix={now} mute={mn}"] else []) ++
+        let cls (d : String) : String := zoneClass σ caller (f9suffix σ d) fun ins =>
+          (implPassed = (ns.filter ins).isEmpty) && sameSet (ns.filter ins) implNames
+        (if implPassed ≠ want then [Msg.propfail "mute_gate" (cls <| if implPassed then "notified-while-muted" else "dropped-while-not-muted") s!"unix={now} mute={mn} caller={caller}"] else []) ++
         (if implMuted ≠ !implPassed then [Msg.propfail "mute_gate" "marker-flag" s!"unix={now} passed={implPassed} marker={implMuted}"] else []) ++
-        (if !sameSet by_ implNames then [Msg.propfail "mute_gate" (f9suffix σ "marker-names") s!"unix={now} spec={showNames by_} impl={mnames}"] else []) ++
+        (if !sameSet by_ implNames then [Msg.propfail "mute_gate" (cls "marker-names") s!"unix={now} caller={caller} spec={showNames by_} impl={mnames}"] else []) ++
         [.tag (if want then "gate:mute-open" else "gate:mute-closed")]
       | "a" =>
         if !inDom actN then [.tag "st:out-of-domain"] else
         let ns := actN.getD []
         let want := ns.isEmpty || ns.any (inSetSpec σ)
-        (if implPassed ≠ want then [Msg.propfail "active_gate" (f9suffix σ <| if implPassed then "notified-while-inactive" else "dropped-while-active") s!"unix={now} active={an}"] else []) ++
+        let cls (d : String) : String := zoneClass σ caller (f9suffix σ d) fun ins =>
+          implPassed = (ns.isEmpty || ns.any ins)
+        (if implPassed ≠ want then [Msg.propfail "active_gate" (cls <| if implPassed then "notified-while-inactive" else "dropped-while-active") s!"unix={now} active={an} caller={caller}"] else []) ++
         (if implMuted ≠ !implPassed then [Msg.propfail "active_gate" "marker-flag" s!"unix={now} passed={implPassed} marker={implMuted}"] else []) ++
         (if !implPassed ∧ implNames ≠ ns then [Msg.propfail "active_gate" (f9suffix σ "marker-names") s!"unix={now} spec={an} impl={mnames}"] else []) ++
         [.tag (if want then "gate:active-open" else "gate:active-closed")]
@@ -311,11 +385,16 @@ def step (σ : St) (op obs : List String) : St × List Msg :=
         let by_ := mns.filter (inSetSpec σ)
         let want := active && by_.isEmpty
         let wantNames := if !active then ans else by_
-        (if implPassed ≠ want then [Msg.propfail "route_gate" (f9suffix σ <| if implPassed then "notified-while-gated" else "dropped-while-open") s!"unix={now} mute={mn} active={an}"] else []) ++
+        let cls (d : String) : String := zoneClass σ caller (f9suffix σ d) fun ins =>
+          let act := ans.isEmpty || ans.any ins
+          (implPassed = (act && (mns.filter ins).isEmpty)) && sameSet (if !act then ans else mns.filter ins) implNames
+        (if implPassed ≠ want then [Msg.propfail "route_gate" (cls <| if implPassed then "notified-while-gated" else "dropped-while-open") s!"unix={now} mute={mn} active={an} caller={caller}"] else []) ++
         (if implMuted ≠ !implPassed then [Msg.propfail "route_gate" "marker-flag" s!"unix={now} passed={implPassed} marker={implMuted}"] else []) ++
-        (if !sameSet wantNames implNames then [Msg.propfail "route_gate" (f9suffix σ "marker-names") s!"unix={now} spec={showNames wantNames} impl={mnames}"] else []) ++
+        (if !sameSet wantNames implNames then [Msg.propfail "route_gate" (cls "marker-names") s!"unix={now} caller={caller} spec={showNames wantNames} impl={mnames}"] else []) ++
         [.tag (if want then "gate:route-open" else if active then "gate:route-muted" else "gate:route-inactive")]
-    (σ', expectEq "stage" modelObs implObs ++ pf)
+    (σ', expectEq "stage" modelObs implObs ++ pf ++ twoZones ++ callerTags)
+  | ["local", z], _ =>
+    ({ σ with localZone := unhexStr z }, [.tag "local:set"])
   | _, _ => (σ, [.diff "parse" "?" (" ".intercalate op)])
 
 def engine : Engine St where
